@@ -314,15 +314,21 @@ def shrink(prop: PropertyCheck, case: dict, key: str, is_viol: Callable[[dict], 
     progress = True
     while progress and steps < limit:
         progress = False
-        for cand in prop.shrink_candidates(case):
-            steps += 1
-            if steps >= limit:
-                break
-            k = is_viol(cand)
-            if k is not None and k == key:
-                case = cand
-                progress = True
-                break
+        try:
+            for cand in prop.shrink_candidates(case):
+                steps += 1
+                if steps >= limit:
+                    break
+                k = is_viol(cand)
+                if k is not None and k == key:
+                    case = cand
+                    progress = True
+                    break
+        except Infra:
+            raise
+        except Exception:
+            # a case the shrinker does not understand (e.g. one reported by extra_checks): keep it as found
+            break
     return case
 
 
